@@ -64,7 +64,8 @@ Definition ag_left_behind (c : ag_cfg) (hs : list how) : list tmp :=
 
 Record dp_cfg := {
   dp_checks : bool;         (* `if process.returncode: raise RuntimeError` *)
-  dp_tmp_ctx : bool }.      (* the output file lives in a with-block *)
+  dp_tmp_ctx : bool;        (* the output file lives in a with-block *)
+  dp_threads : bool }.      (* joblib.Parallel(..., backend="threading"): a failing fold does not kill the others *)
 
 Definition popen_returncode (h : how) : Z :=
   match h with HOk => 0 | HExit n => n mod 256 | HSignal s => - s end.
@@ -77,6 +78,17 @@ Definition dp_segment_outcome (c : dp_cfg) (hs : list how) : outcome :=
 Definition dp_left_behind (c : dp_cfg) (hs : list how) : list nat :=
   if dp_tmp_ctx c then [] else started {| ag_before := 0; ag_after := 0; ag_pipefail := true;
                                           ag_checks := dp_checks c; ag_finally := true; ag_grammar_ctx := true |} hs 0.
+
+(* Folds run njobs at a time. With joblib's process backend the first failing fold makes joblib kill
+   its worker processes: a fold that is running at that moment never leaves its with-block, so its
+   output file stays. Which folds are running is up to the scheduler: the model returns every fold that
+   MAY be left (all the other ones); with threads, or one job, the with-blocks always complete. *)
+Definition dp_may_leave (c : dp_cfg) (njobs : nat) (hs : list how) : list nat :=
+  if negb (dp_tmp_ctx c) then seq 0 (length hs)
+  else if dp_threads c || (njobs <=? 1) then []
+  else if existsb (dp_run_raises c) hs
+       then filter (fun i => negb (dp_run_raises c (nth i hs HOk))) (seq 0 (length hs))
+       else [].
 
 (* ---------- theorems ---------- *)
 
@@ -187,6 +199,20 @@ Qed.
 
 Theorem dp_no_temp_left : forall c hs, dp_tmp_ctx c = true -> dp_left_behind c hs = [].
 Proof. intros c hs H. unfold dp_left_behind. now rewrite H. Qed.
+
+(* parallel folds: with the threading backend (since fix 0bab8df) nothing can be left, whatever the
+   number of jobs, the fates of the folds and the schedule *)
+Theorem dp_parallel_no_temp_left : forall c njobs hs, dp_tmp_ctx c = true -> dp_threads c = true ->
+  dp_may_leave c njobs hs = [].
+Proof. intros c njobs hs H1 H2. unfold dp_may_leave. now rewrite H1, H2. Qed.
+
+Theorem dp_single_job_no_temp_left : forall c hs, dp_tmp_ctx c = true -> dp_may_leave c 1 hs = [].
+Proof. intros c hs H. unfold dp_may_leave. rewrite H. cbn. now rewrite orb_true_r. Qed.
+
+(* the defect repaired by 0bab8df: process backend, two jobs, the first fold fails, the second may stay *)
+Example dp_processes_may_leave :
+  dp_may_leave {| dp_checks := true; dp_tmp_ctx := true; dp_threads := false |} 2 [HExit 1; HOk; HOk] = [1; 2]%nat.
+Proof. reflexivity. Qed.
 
 (* ---------- wire: the model's prediction for a scenario ---------- *)
 Definition d_how (j : J) : option how :=
